@@ -324,8 +324,10 @@ class _FactorTypeMap(_FactorTypeMapAbstractClass):
     def _yield_factor_identifier_local(self, active_identifier):
         assert len(active_identifier) == 2
         assert active_identifier[0] < setting.number_of_root_nodes
-        for target_leaf_node_number_list in self._map[active_identifier[1]]:
-            yield tuple((active_identifier[0], target_leaf_node) for target_leaf_node in target_leaf_node_number_list)
+        if active_identifier[1] in self._map.keys():
+            for target_leaf_node_number_list in self._map[active_identifier[1]]:
+                yield tuple((active_identifier[0], target_leaf_node)
+                            for target_leaf_node in target_leaf_node_number_list)
 
     def _yield_factor_identifier_non_local(self, active_identifier):
         assert len(active_identifier) == 2
